@@ -342,6 +342,10 @@ def sched_part(ctx, quick, rnd):
     ctx.states += r1.distinct
     ctx.transitions += r1.states
     recs = r1.records + recs
+    # (schedules in which the storage runs out under a writer are part of the model -- the invariants hold on them -- and are
+    # exercised on the real code by storage_part with file size limits, not through the step hooks)
+    ctx.notes["schedules_with_write_failure"] = sum(1 for x in recs if any(e["step"] == "writefails" for e in x["sched"]))
+    recs = [x for x in recs if not any(e["step"] == "writefails" for e in x["sched"])]
     # every single-writer crash point, plus sampled two-writer interleavings (with and without crashes)
     single = [x for x in recs if len({e["w"] for e in x["sched"]}) == 1 and x["sched"][-1]["step"] == "crash"]
     single = list({json.dumps(x["sched"]): x for x in single}.values())
